@@ -151,6 +151,29 @@ def poscar_section() -> str:
     )
 
 
+# ---------------------------------------------------------------------------------------------
+# FCHK object mapping (by probing, see _fchkprobe.py)
+
+
+def _tr_lean(tr) -> str:
+    if tr[0] == "pick":
+        return f"(.pick {tr[1]})"
+    return "." + tr[0]
+
+
+def _rows_lean(rows) -> str:
+    return "[" + ",\n   ".join(f"⟨{chars(a)}, {chars(lab)}, {_tr_lean(tr)}, {engine.lean_int(u)}⟩" for a, lab, tr, u in rows) + "]"
+
+
+@section
+def fchk_section() -> str:
+    from . import _fchkprobe as P
+
+    w = P.writer_rows()
+    r = P.reader_rows(w)
+    return f"def fchkW : List FchkO.Row :=\n  {_rows_lean(w)}\n\ndef fchkR : List FchkO.Row :=\n  {_rows_lean(r)}\n"
+
+
 def build_gen() -> str:
     out = ["import Iodata.Gen.Layouts", "import Iodata.Model.Fmt.AllW", "namespace Iodata.Gen.LayoutsW", "open Iodata.Fmt", ""]
     for fn in SECTIONS:
